@@ -452,8 +452,10 @@ class Inliner:
 
         for _ in range(6):
             stores = {}
+            # (the target of a comprehension is a variable of the comprehension's own scope, not a store of the function's local)
+            comp_targets = {id(x) for c_ in ast.walk(f.node) if isinstance(c_, ast.comprehension) for x in ast.walk(c_.target)}
             for n in ast.walk(f.node):
-                if isinstance(n, ast.Name) and isinstance(n.ctx, (ast.Store, ast.Del)):
+                if isinstance(n, ast.Name) and isinstance(n.ctx, (ast.Store, ast.Del)) and id(n) not in comp_targets:
                     stores.setdefault(n.id, []).append(n)
             params = {a.arg for a in ast.walk(f.node.args) if isinstance(a, ast.arg)}
             cand = None
